@@ -23,7 +23,7 @@ from ..absint import Interp, Frame, State, SelfV, FHV, Vec, Rng, Arr, Tup, K, Op
 from ..index import AnalysisError, ClassInfo, dotted
 from ..lin import Facts
 from .. import astq
-from ._c05_arrays import (AInterp, Q, Env, Uneval, Nd, Src, Buf, View, Cat, Flat, Resh2, ColAgg, Tile, Rep, Elem, Ser,
+from ._c05_arrays import (Picks, AInterp, Q, Env, Uneval, Nd, Src, Buf, View, Cat, Flat, Resh2, ColAgg, Tile, Rep, Elem, Ser,
                           SYMDEFS, CONST_VECS, ZERO, ONE, OOB, const_vec, entails, sym_elem, sym_mod, subst_val, vec_len, is_nan)
 from .c05 import check_fh_models, check_shift_model, Ob, eq_lin, feasible, nonvacuous, loop_envs, resolve, fmt, witness_text, construct, run_method
 
@@ -144,9 +144,31 @@ def make_hooks(rec):
             # some, but not only, missing values and observed end points
             a0 = args[0]
             whole = isinstance(a0, Opq) and a0.tag == "numpy.isnan" and a0.args and isinstance(a0.args[0], Nd)
+            picks = a0.args[0] if (isinstance(a0, Opq) and a0.tag == "numpy.isnan" and a0.args and isinstance(a0.args[0], Picks)) else None
+            mode = getattr(rec, "nan_mode", None)
             if getattr(rec, "partial_nan", False) and whole and ext == "numpy.any":
                 return K(True)
+            if mode == "all":  # every value of the window is missing
+                if whole or picks is not None:
+                    return K(True)
+            if mode in ("first", "last"):  # exactly that end point of the window is missing
+                if whole:
+                    return K(ext == "numpy.any")
+                if picks is not None:
+                    pos = ZERO if mode == "first" else picks.base.shape[0] - 1
+                    hit = [p_ == pos for p_ in picks.positions]
+                    return K(any(hit) if ext == "numpy.any" else all(hit))
+                if isinstance(a0, Opq) and a0.tag == "numpy.isnan":
+                    return Opq("isnan-of-uninterpreted-selection", [a0])
             return K(False)
+        if ext == "numpy.isnan" and args and isinstance(args[0], Elem) and len(args[0].coords) == 1 and getattr(rec, "nan_mode", None):
+            mode = rec.nan_mode
+            if mode == "all":
+                return K(True)
+            e_ = args[0]
+            if e_.wraps[0] is None and e_.arr.ndim == 1:
+                pos = ZERO if mode == "first" else e_.arr.shape[0] - 1
+                return K(e_.coords[0] == pos)
         if ext in ("numpy.isnan", "numpy.isinf"):
             return Opq(ext, args)
         if ext == "numpy.sort" and args and isinstance(args[0], Vec):
@@ -495,6 +517,31 @@ def rule_naive_predict(ctx, repo, runs):
         sc = run.sc
         if run.facts is None:
             continue
+        # missing values at the places the code guards: an all-missing window gives a forecast (NaN), a drift line
+        # through a missing end point is refused
+        locn = ctx.loc(run.pred_cls.module, run.pred_fn) if hasattr(run, "pred_cls") else None
+        for mode in (("all", "first", "last") if sc.strategy == "drift" else ("all",)):
+            run.rec.nan_mode = mode
+            try:
+                tr_m = run.predict(repo)
+            finally:
+                run.rec.nan_mode = None
+            locn = ctx.loc(run.pred_cls.module, run.pred_fn)
+            outs = [o[0] for s_, o in tr_m]
+            opq_guard = any(isinstance(o[1], Opq) and False for s_, o in tr_m if o[0] == "return")
+            if mode == "all":
+                ctx.check(("raise" not in outs and "fall" not in outs and "return" in outs) if outs else None, "R2", tag + ":all-missing-window",
+                          "a window that holds only missing values yields a forecast (NaN) instead of an error",
+                          "a window that holds only missing values %s instead of yielding the NaN forecast"
+                          % ("raises" if "raise" in outs else "ends without a forecast"), locn, witness={"window": "[nan, nan, nan, nan]"})
+            else:
+                ctx.check((True if set(outs) == {"raise"} else (False if "raise" not in outs else None)) if outs else None,
+                          "R2", "%s:missing-%s-end-point-refused" % (tag, mode),
+                          "a drift line through a missing %s end point is refused" % mode,
+                          "the %s end point of the window is missing, yet _predict_last_window %s (a silent all-NaN forecast instead of the "
+                          "documented ValueError): the guard must test both ends and reject" % (
+                              mode, "returns a value" if "return" in outs else "ends without raising (returns None)"), locn,
+                          witness={"window": "[8, 9, 13, nan]" if mode == "last" else "[nan, 9, 13, 10]"})
         # missing values: a window with some (not only) missing values is still forecast from its observed values
         run.rec.partial_nan = True
         try:
